@@ -13,6 +13,7 @@ Prune == Len(table) = 3 => (table[1].cls = table[2].cls /\ table[2].cls = table[
 
 GenPrefixes == {Pfx(4, 0, 0), Pfx(4, 0, 1), Pfx(4, 32, 1), Pfx(4, 16, 2), Pfx(4, 20, 4), Pfx(4, 23, 4),
                 Pfx(4, 21, 6), Pfx(6, 0, 1)}
+GenPrefixesQuick == GenPrefixes \ {Pfx(4, 16, 2)}
 GenPrefixesThorough == GenPrefixes \cup {Pfx(4, 16, 3), Pfx(6, 21, 6), Pfx(6, 0, 0)}
 GenClassLists == {<<Cl("true", 1)>>, <<Cl("tos", 0), Cl("true", 1)>>, <<Cl("tos", 1), Cl("false", 1)>>,
                   <<Cl("false", 1), Cl("true", 0)>>}
